@@ -519,21 +519,23 @@ class EipEndpoint:
 
     # ---- byte-stream monitor (C11) ---------------------------------------
     def on_client_message_start(self, conn, data):
-        if conn is not self.conn:
-            return
-        self.check_emitted(data)
+        # TCP is a byte stream: what counts is the sequence of frames in it (each is checked in on_bytes once it is
+        # complete), not how the client spreads them over send() calls - header and body may well go out separately
+        return
 
     def on_client_recv(self, conn):
         if conn is not self.conn:
             return
-        if self.conn.c2s and not self.torn:
+        if self.conn.c2s and not self.torn and not self.conn.send_faulted:
             self.world.hits.hit("C11", "frame.stream",
                                 f"client waits for a reply while {len(self.conn.c2s)} bytes of an incomplete "
                                 f"frame are pending at the target", rules=["R-ENC-LEN"], what="incomplete")
             self.torn = True
 
     def check_emitted(self, data):
-        """strict check of one message handed to Socket.send, in connection context"""
+        """strict check of one frame of the client's byte stream, in connection context.  A wrong length field shows
+        as a frame that never completes (frame.stream, when the client starts waiting or closes) or as a following
+        'frame' that starts in the middle of this one's body (command / short / cpf)"""
         hit = lambda what, msg, rules=("R-ENC-HDR",): self.world.hits.hit(
             "C11", "frame.strict", msg, rules=rules, what=what)
         if self.torn:
@@ -609,9 +611,15 @@ class EipEndpoint:
             del buf[:24 + length]
             self.sim.charge("frames")
             self.world.frames_in += 1
+            self.check_emitted(frame)
             self.handle_frame(frame)
 
     def on_client_close(self, conn):
+        if conn is self.conn and self.conn.c2s and not self.torn and not self.conn.dead and not self.conn.send_faulted:
+            self.world.hits.hit("C11", "frame.stream",
+                                f"client closed the connection with {len(self.conn.c2s)} bytes of an incomplete frame "
+                                f"pending at the target", rules=["R-ENC-LEN"], what="incomplete")
+            self.torn = True
         self._drop_session()
 
     def on_dead(self, conn):
